@@ -28,7 +28,7 @@ from vlib.core import enc_csr, enc_list, enc_rat, ToolFailure, VERIF
 RULE = ('all undirected simple graphs n<=5 (thorough: n<=6) x {count_triangles seq/parallel, clustering coefficient, '
         'core decomposition, count_cliques for every k in 2..n+1 and the refused k<2}; structured and random graphs '
         '6<=n<=40 (onion/core-structured, preferential attachment, dense blocks, multipartite, relabelled copies, '
-        'unsorted indices, integer weights, bool/int dtypes); 300 (thorough 3000) dense graphs n=6..8 for the deeper levels of the clique recursion; thread sweep OMP_NUM_THREADS in {1,2,3,5,8,16} in sub-processes. A case is non-trivial when the '
+        'unsorted indices, integer weights, fractional float32 weights, bool/int dtypes); non-square matrices (refused); 300 (thorough 3000) dense graphs n=6..8 for the deeper levels of the clique recursion; thread sweep OMP_NUM_THREADS in {1,2,3,5,8,16} in sub-processes. A case is non-trivial when the '
         'graph has at least one edge (triangles/cliques: at least one path of length two); distinct = distinct '
         '(function, graph, arguments)')
 ASSUMPTIONS = ['scipy csr construction / + / .T / astype / tocoo / tocsr are the substrate (the DAG handed to the kernels '
@@ -66,7 +66,7 @@ def _gdesc(a):
 
 
 def _from_desc(gd):
-    dt = {'bool': bool, 'int64': np.int64, 'int32': np.int32}.get(gd.get('dtype'), float)
+    dt = {'bool': bool, 'int64': np.int64, 'int32': np.int32, 'float32': np.float32}.get(gd.get('dtype'), float)
     return sparse.csr_matrix((np.array(gd['data']).astype(dt), np.array(gd['indices'], dtype=np.int32),
                               np.array(gd['indptr'], dtype=np.int32)), shape=tuple(gd['shape']))
 
@@ -257,7 +257,7 @@ def cases_for_graph(ctx, a, rng, name='', simple=True, ks=None, funcs=('tri', 'c
                         canon='float'))
     if 'core' in funcs:
         impl = _call(lambda: 'ok ' + enc_list(get_core_decomposition(a)))
-        run = 'c11.core %s %s' % (enc_list(a.indptr), enc_list(a.indices))
+        run = 'c11.core %d %d %s %s' % (a.shape[0], a.shape[1], enc_list(a.indptr), enc_list(a.indices))
         spec = None
         if impl.startswith('ok ') and simple:
             spec = 'c11.spec_core %s %s' % (sp, impl[3:])
@@ -267,7 +267,7 @@ def cases_for_graph(ctx, a, rng, name='', simple=True, ks=None, funcs=('tri', 'c
         gsq = '%d %s %s %s' % (n, enc_list(a.indptr), enc_list(a.indices), g.split(' ')[4])
         for k in (ks if ks is not None else range(2, n + 2)):
             impl = _call(lambda: 'ok %d' % count_cliques(a, k))
-            run = 'c11.cliques %s %d' % (gsq, k)
+            run = 'c11.cliques %s %d' % (g, k)
             spec = None
             if impl.startswith('ok '):
                 spec = 'c11.spec_cliques %s %d %s' % (sp, k, impl[3:])
@@ -574,7 +574,7 @@ def _ks_for(rng, a, quick):
 
 def variants(ctx, a, rng):
     """Same undirected graph in other clothes: unsorted indices, integer weights, bool / int dtype."""
-    v = rng.choice(['unsorted', 'weights', 'bool', 'int'])
+    v = rng.choice(['unsorted', 'weights', 'bool', 'int', 'float32'])
     if v == 'unsorted':
         return v, graphs.unsorted_copy(a, rng)
     if v == 'weights':
@@ -583,6 +583,13 @@ def variants(ctx, a, rng):
         b = sparse.csr_matrix(b + b.T)
         b.sort_indices()
         return v, b
+    if v == 'float32':
+        # fractional float32 weights (directed2undirected must keep them floating)
+        b = sparse.triu(a, 1).tocsr().astype(float)
+        b.data = np.array([rng.choice([0.5, 0.25, 1.5, 2]) for _ in range(b.nnz)], dtype=float)
+        b = sparse.csr_matrix(b + b.T)
+        b.sort_indices()
+        return v, b.astype(np.float32)
     if v == 'bool':
         return v, a.astype(bool)
     return v, a.astype(np.int64)
@@ -612,12 +619,10 @@ def build_cases(ctx):
     for k in (1, 0, -1):
         a = _mk(3, _und([(0, 1), (1, 2), (0, 2)]))
         cases += cases_for_graph(ctx, a, rng, 'k<2', True, [k], ('cliques',))
-    # non-square
-    from sknetwork.topology import count_triangles
-    b = sparse.csr_matrix(np.array([[0, 1, 1], [1, 0, 1]], dtype=float))
-    impl = _call(lambda: 'ok %d' % count_triangles(b))
-    cases.append(Case(('tri', 'nonsquare'), {'entry': 'count_triangles', 'shape': 'non-square'},
-                      'c11.tri %s 0' % enc_csr(b), impl, None, False, {'f': 'count_triangles', 'graph': _gdesc(b)}))
+    # non-square matrices are refused by the three entry points
+    for b in (sparse.csr_matrix(np.array([[0, 1, 1], [1, 0, 1]], dtype=float)),
+              sparse.csr_matrix(np.array([[0, 1], [1, 0], [1, 1]], dtype=float))):
+        cases += _nonsquare_cases(b)
     # 2. structured / random graphs
     for name, a in random_graphs(ctx, rng, 60 if quick else 500, 6, 16 if quick else 22):
         cases += cases_for_graph(ctx, a, rng, name, True, _ks_for(rng, a, quick))
@@ -780,9 +785,28 @@ def _corpus_cases(ctx):
     return cases
 
 
+def _nonsquare_cases(b):
+    from sknetwork.topology import count_triangles, get_core_decomposition, count_cliques
+    out = []
+    impl = _call(lambda: 'ok %d' % count_triangles(b))
+    out.append(Case(('tri', 'nonsquare', b.shape), {'entry': 'count_triangles', 'shape': 'non-square'},
+                    'c11.tri %s 0' % enc_csr(b), impl, None, False, {'f': 'count_triangles', 'graph': _gdesc(b)}))
+    impl = _call(lambda: 'ok ' + enc_list(get_core_decomposition(b)))
+    out.append(Case(('core', 'nonsquare', b.shape), {'entry': 'get_core_decomposition', 'shape': 'non-square'},
+                    'c11.core %d %d %s %s' % (b.shape[0], b.shape[1], enc_list(b.indptr), enc_list(b.indices)),
+                    impl, None, False, {'f': 'get_core_decomposition', 'graph': _gdesc(b)}))
+    impl = _call(lambda: 'ok %d' % count_cliques(b, 3))
+    out.append(Case(('cliques', 'nonsquare', b.shape), {'entry': 'count_cliques', 'shape': 'non-square'},
+                    'c11.cliques %s 3' % enc_csr(b), impl, None, False,
+                    {'f': 'count_cliques', 'graph': _gdesc(b), 'k': 3}))
+    return out
+
+
 def _cases_of_desc(ctx, case):
     a = _from_desc(case['graph'])
     f = case.get('f')
+    if a.shape[0] != a.shape[1]:
+        return _nonsquare_cases(a)
     simple = abs(a - a.T).nnz == 0 and a.diagonal().sum() == 0 and (a.data > 0).all()
     if f == 'count_cliques':
         return cases_for_graph(ctx, a, ctx.rng, case.get('name', 'replay'), simple, [case['k']], ('cliques', 'dag', 'core'))
